@@ -257,6 +257,8 @@ enum WOp {
     BitsBe(u64, usize),
     Byte(u8),
     Flush,
+    /// io::Write::flush: flushes the byte sink only, the cached bits stay where they are
+    IoFlush,
 }
 
 fn writer_alphabet() -> Vec<WOp> {
@@ -273,6 +275,7 @@ fn writer_alphabet() -> Vec<WOp> {
     v.push(WOp::Byte(0xa5));
     v.push(WOp::Byte(0x01));
     v.push(WOp::Flush);
+    v.push(WOp::IoFlush);
     v
 }
 
@@ -356,6 +359,9 @@ fn check_writer(ops: &[WOp], out: &mut Out) -> Option<(String, String)> {
                         model.push(false);
                     }
                 }
+                WOp::IoFlush => {
+                    std::io::Write::flush(&mut w).unwrap();
+                }
             }
             if w.n_total_written() != written {
                 return Some(("writer:counter".into(), format!("n_total_written {} after {} bits", w.n_total_written(), written)));
@@ -369,6 +375,26 @@ fn check_writer(ops: &[WOp], out: &mut Out) -> Option<(String, String)> {
     let expect = bits_to_bytes(&model);
     if sink != expect {
         return Some(("writer:bytes".into(), format!("sink {} expected {}", hex(&sink), hex(&expect))));
+    }
+    // the same history through the write_to_vec helper
+    let via_helper = simplicity::write_to_vec(|w| {
+        let mut n = 0;
+        for op in ops {
+            match *op {
+                WOp::Bit(b) => {
+                    w.write_bit(b)?;
+                    n += 1;
+                }
+                WOp::BitsBe(v, len) => n += w.write_bits_be(v, len)?,
+                WOp::Byte(b) => n += 8 * w.write(&[b])?,
+                WOp::Flush => w.flush_all()?,
+                WOp::IoFlush => std::io::Write::flush(w)?,
+            }
+        }
+        Ok(n)
+    });
+    if via_helper != expect {
+        return Some(("writer:write_to_vec".into(), format!("write_to_vec gives {} expected {}", hex(&via_helper), hex(&expect))));
     }
     // read everything back through the reader
     let back: Vec<bool> = BitIter::from(sink.as_slice()).collect();
